@@ -18,8 +18,8 @@ from .. import guards as G
 from .. import instrs as I
 from ..model import AnalysisError, Unknown, dotted, src
 
-TECHNIQUE = "must-pass-through path rule (pop => reset) on the CFG with callee summaries; exhaustiveness of template substitution; abstract interpretation of small functions over an enumerated finite domain by the checker's own AST interpreter (static analysis)"
-ENGINES = ["model", "flow", "instrs", "circuit"]
+TECHNIQUE = "must-pass-through path rule (pop => reset) on the CFG with callee summaries; instantiate, templates through assembly and the flush / compile pipeline executed by the checker's own AST interpreter (static analysis; abstract execution)"
+ENGINES = ["model", "flow", "instrs", "circuit", "pipeline"]
 EXPLANATION = (
     "Over sdk/connection.py: for every method that calls subrt_pop_pending_subroutine(), every CFG path from the pop to a normal exit "
     "(except the early return taken when nothing was popped) passes a call of the builder's _reset, directly or through a callee "
